@@ -132,7 +132,7 @@ where
 
 // The bin geometry is used unchecked by the binning scheme (`reg2bin`, `reg2bins`, `bin_limit`,
 // `max_position`), so a file-provided one has to be validated here.
-fn validate_bin_geometry(min_shift: u8, depth: u8) -> Result<(), ReadError> {
+pub(crate) fn validate_bin_geometry(min_shift: u8, depth: u8) -> Result<(), ReadError> {
     // `CSIv1.pdf` (2020-07-21): bin IDs are `int32_t`, which limits the depth.
     const MAX_DEPTH: u8 = 10;
 
